@@ -448,8 +448,12 @@ func run(id, mode string, rest []string) int {
 	}
 	if inconclusive || totalEvals == 0 {
 		fmt.Printf("INCONCLUSIVE property=%s\n", id)
-		for _, p := range problems {
-			fmt.Println(p)
+		for k, p := range problems {
+			if k == 0 {
+				fmt.Println(p)
+			} else {
+				fmt.Println(firstLines(p, 1))
+			}
 		}
 		if totalEvals == 0 {
 			for _, r := range results {
